@@ -67,7 +67,7 @@ type sample struct {
 }
 
 func (w *world) Run(t *rt.Tape, trace bool) *core.Result {
-	res := &core.Result{}
+	res := &core.Result{Reach: map[string]int{}}
 	core.BeginRun(t)
 	ab, s1 := core.DrawDir(t, core.Caps)
 	ba, s2 := core.DrawDir(t, core.Caps)
@@ -195,9 +195,6 @@ func (w *world) Run(t *rt.Tape, trace bool) *core.Result {
 		}
 	case 2, 3:
 		k := t.Choose(rt.SGen, 3) // OT: CO, COT, COT-malicious
-		a := uint(t.Choose(rt.SGen, 2))
-		b := uint(t.Choose(rt.SGen, 2))
-		reps := 1 + t.Choose(rt.SGen, 6)
 		mk := func(r *simrand.DRBG) ot.OT {
 			switch k {
 			case 0:
@@ -208,87 +205,114 @@ func (w *world) Run(t *rt.Tape, trace bool) *core.Result {
 				return ot.NewCOT(&simio.ClearOT{}, r, true, false)
 			}
 		}
-		smp.Scenario = map[int]string{2: "bmr.FxSend/FxReceive", 3: "bmr.FxkSend/FxkReceive"}[scenario] + " over " + []string{"CO", "COT", "COT-malicious"}[k]
-		smp.AB = fmt.Sprintf("a=%d b=%d x%d", a, b, reps)
-		rbits := make([]uint, reps)
-		xbits := make([]uint, reps)
-		as := make([]uint, reps)
-		bs := make([]uint, reps)
-		var sl, rl, xl []bmr.Label
-		for i := 0; i < reps; i++ {
-			as[i], bs[i] = (a+uint(i))%2, (b+uint(i/2))%2
-			var s bmr.Label
-			rH.Read(s[:])
-			if t.Choose(rt.SGen, 8) == 0 {
-				s = bmr.Label{}
-			}
-			sl = append(sl, s)
+		// one or two sessions served by the same two processes at once (as the
+		// BMR player's per-peer goroutines do), each with its own connection and OT
+		ns := 1 + t.Choose(rt.SGen, 2)
+		type fxs struct {
+			reps         int
+			as, bs       []uint
+			rbits, xbits []uint
+			sl, rl, xl   []bmr.Label
+			sDone, rDone bool
 		}
-		rl = make([]bmr.Label, reps)
-		xl = make([]bmr.Label, reps)
-		body = func() {
-			ea, eb := simnet.Pipe("S", "R", pipe)
-			ca, cb := p2p.NewConn(ea), p2p.NewConn(eb)
-			rt.GoParty("S", "fx-sender", func() {
-				o := mk(rS)
-				if err := o.InitSender(ca); err != nil {
-					fail("sender-error", err.Error())
-					return
+		smp.Scenario = map[int]string{2: "bmr.FxSend/FxReceive", 3: "bmr.FxkSend/FxkReceive"}[scenario] + " over " + []string{"CO", "COT", "COT-malicious"}[k]
+		if ns == 2 {
+			smp.Scenario += ", two concurrent sessions per process"
+			res.Reach["fx.two-concurrent-sessions"]++
+		}
+		var ss []*fxs
+		for q := 0; q < ns; q++ {
+			a := uint(t.Choose(rt.SGen, 2))
+			b := uint(t.Choose(rt.SGen, 2))
+			x := &fxs{reps: 1 + t.Choose(rt.SGen, 6)}
+			smp.AB += fmt.Sprintf("[a=%d b=%d x%d] ", a, b, x.reps)
+			x.rbits, x.xbits = make([]uint, x.reps), make([]uint, x.reps)
+			x.as, x.bs = make([]uint, x.reps), make([]uint, x.reps)
+			x.rl, x.xl = make([]bmr.Label, x.reps), make([]bmr.Label, x.reps)
+			for i := 0; i < x.reps; i++ {
+				x.as[i], x.bs[i] = (a+uint(i))%2, (b+uint(i/2))%2
+				var l bmr.Label
+				rH.Read(l[:])
+				if t.Choose(rt.SGen, 8) == 0 {
+					l = bmr.Label{}
 				}
-				for i := 0; i < reps; i++ {
-					var err error
-					if scenario == 2 {
-						rbits[i], err = bmr.FxSend(o, as[i])
-					} else {
-						rl[i], err = bmr.FxkSend(o, sl[i])
-					}
-					if err != nil {
+				x.sl = append(x.sl, l)
+			}
+			ss = append(ss, x)
+		}
+		body = func() {
+			for q, x := range ss {
+				q, x := q, x
+				ea, eb := simnet.Pipe(fmt.Sprintf("S%d", q), fmt.Sprintf("R%d", q), pipe)
+				ca, cb := p2p.NewConn(ea), p2p.NewConn(eb)
+				rt.GoParty("S", fmt.Sprintf("fx-sender-%d", q), func() {
+					o := mk(simrand.Stream(fmt.Sprintf("S%d", q)))
+					if err := o.InitSender(ca); err != nil {
 						fail("sender-error", err.Error())
 						return
 					}
-				}
-				sDone = true
-				ca.Close()
-			})
-			rt.GoParty("R", "fx-receiver", func() {
-				o := mk(rR)
-				if err := o.InitReceiver(cb); err != nil {
-					fail("receiver-error", err.Error())
-					return
-				}
-				for i := 0; i < reps; i++ {
-					var err error
-					if scenario == 2 {
-						xbits[i], err = bmr.FxReceive(o, bs[i])
-					} else {
-						xl[i], err = bmr.FxkReceive(o, bs[i])
+					for i := 0; i < x.reps; i++ {
+						var err error
+						if scenario == 2 {
+							x.rbits[i], err = bmr.FxSend(o, x.as[i])
+						} else {
+							x.rl[i], err = bmr.FxkSend(o, x.sl[i])
+						}
+						if err != nil {
+							fail("sender-error", err.Error())
+							return
+						}
 					}
-					if err != nil {
+					x.sDone = true
+					ca.Close()
+				})
+				rt.GoParty("R", fmt.Sprintf("fx-receiver-%d", q), func() {
+					o := mk(simrand.Stream(fmt.Sprintf("R%d", q)))
+					if err := o.InitReceiver(cb); err != nil {
 						fail("receiver-error", err.Error())
 						return
 					}
-				}
-				rDone = true
-				cb.Close()
-			})
+					for i := 0; i < x.reps; i++ {
+						var err error
+						if scenario == 2 {
+							x.xbits[i], err = bmr.FxReceive(o, x.bs[i])
+						} else {
+							x.xl[i], err = bmr.FxkReceive(o, x.bs[i])
+						}
+						if err != nil {
+							fail("receiver-error", err.Error())
+							return
+						}
+					}
+					x.rDone = true
+					cb.Close()
+				})
+			}
 		}
+		sDone, rDone = true, true // replaced by the per-session flags in check
 		check = func() {
-			for i := 0; i < reps; i++ {
-				if scenario == 2 {
-					if rbits[i]^xbits[i] != as[i]*bs[i] || rbits[i] > 1 || xbits[i] > 1 {
-						fail("fx-product", fmt.Sprintf("Fx repetition %d: a=%d b=%d, shares r=%d xb=%d, r xor xb = %d != a*b", i, as[i], bs[i], rbits[i], xbits[i], rbits[i]^xbits[i]))
-						return
-					}
-				} else {
-					want := bmr.Label{}
-					if bs[i] == 1 {
-						want = sl[i]
-					}
-					got := rl[i]
-					got.Xor(xl[i])
-					if !got.Equal(want) {
-						fail("fxk-product", fmt.Sprintf("Fxk repetition %d: b=%d s=%v, r xor xb = %v != b*s = %v", i, bs[i], sl[i], got, want))
-						return
+			for q, x := range ss {
+				if !x.sDone || !x.rDone {
+					fail("did-not-terminate", fmt.Sprintf("session %d: sender done=%v receiver done=%v", q, x.sDone, x.rDone))
+					return
+				}
+				for i := 0; i < x.reps; i++ {
+					if scenario == 2 {
+						if x.rbits[i]^x.xbits[i] != x.as[i]*x.bs[i] || x.rbits[i] > 1 || x.xbits[i] > 1 {
+							fail("fx-product", fmt.Sprintf("Fx session %d of %d, repetition %d: a=%d b=%d, shares r=%d xb=%d, r xor xb = %d != a*b", q, ns, i, x.as[i], x.bs[i], x.rbits[i], x.xbits[i], x.rbits[i]^x.xbits[i]))
+							return
+						}
+					} else {
+						want := bmr.Label{}
+						if x.bs[i] == 1 {
+							want = x.sl[i]
+						}
+						got := x.rl[i]
+						got.Xor(x.xl[i])
+						if !got.Equal(want) {
+							fail("fxk-product", fmt.Sprintf("Fxk session %d of %d, repetition %d: b=%d s=%v, r xor xb = %v != b*s = %v", q, ns, i, x.bs[i], x.sl[i], got, want))
+							return
+						}
 					}
 				}
 			}
